@@ -274,7 +274,9 @@ SUBST_EXTRA = [
     ("exists Y (t(X, Y) and exists Y1 (t(Y1, Y) and exists Y2 (t(Y2, X))))", "X", "Y"),
     # the same name at another sort must stay untouched; sibling binders that differ in a trailing index
     ("t(X$i + 1, X)", "X", "5"), ("t(N$i, N)", "N", "M$i"), ("p(X$s) and q(X)", "X", "a"), ("exists Y (t(X, Y) and p(X$i))", "X", "Y$i + 1"),
-    ("forall Y$i Y1$i (t(X$i, Y$i) and p(Y1$i))", "X$i", "Y$i + Y1$i"), ("forall Y Y1 (t(X, Y) and p(Y1))", "X", "Y"),
+    ("forall Y$i Y1$i (t(X$i, Y$i) and p(Y1$i))", "X$i", "Y$i + Y1$i"), ("forall Y$i Y1$i (t(Y$i, Y1$i) or p(X$i))", "X$i", "Y$i + Y1$i"),
+    ("exists Y$i Y1$i (Y$i < Y1$i and p(X$i))", "X$i", "Y$i * Y1$i"), ("forall N$i N1$i (N$i = N1$i -> p(X$i))", "X$i", "N$i - N1$i"),
+    ("exists Y$i Y1$i Y2$i (t(Y$i, Y1$i) and t(Y1$i, Y2$i) and p(X$i))", "X$i", "Y$i + Y1$i + Y2$i"), ("forall Y Y1 (t(X, Y) and p(Y1))", "X", "Y"),
     ("exists Y Y1 Y2 (t(X, Y) and t(Y1, Y2))", "X", "Y1"), ("forall X$i (p(X$i) -> q(X))", "X", "X$i"), ("p(X$i) and p(X$s) and p(X)", "X$i", "X$i + 1"),
 ]
 
